@@ -10,6 +10,15 @@ def _mm_types():
     out.append(("isize", ["isize::MIN", "-1isize", "0isize", "isize::MAX"]))
     out.append(("char", ["'\\0'", "'a'", "'\\u{D7FF}'", "char::MAX"]))
     out.append(("bool", ["false", "true"]))
+    # non-primitive comparable types (lexicographic order: a shorter value may be the greater one)
+    out.append(("&[u8]", ["(&[] as &[u8])", "&[1u8, 1]", "&[1u8, 1, 0]", "&[2u8]"]))
+    out.append(("&[i8]", ["&[-1i8, 5]", "&[-1i8, 5, 0]", "&[0i8]", "&[1i8]"]))
+    out.append(("&[u64]", ["(&[] as &[u64])", "&[256u64, 1]", "&[256u64, 1, 0]", "&[257u64]"]))
+    out.append(("&str", ['""', '"a\\u{e9}"', '"a\\u{e9}a"', '"b"']))
+    out.append(("&[&str]", ["(&[] as &[&str])", '&["a", "a"]', '&["a", "b"]', '&["b"]']))
+    out.append(("[u8; 2]", ["[0u8, 0]", "[0u8, 1]", "[1u8, 0]", "[255u8, 255]"]))
+    out.append(("Option<u8>", ["None", "Some(0u8)", "Some(1u8)", "Some(255u8)"]))
+    out.append(("std::cmp::Ordering", ["std::cmp::Ordering::Less", "std::cmp::Ordering::Equal", "std::cmp::Ordering::Greater"]))
     return out
 
 
